@@ -18,8 +18,9 @@ import ThriftVerif.Generated.C05
     "no progress ⇒ error" test; the `Category` cells it mutates are a `Store` keyed by address.
     Go's `for` has no bound, the model has fuel `len+1`, exhaustion is `Err.loopDiverged`
     (theorem `typedef_fixpoint_complete`: never happens).
-  * `getEnum` and `Deref` recurse without bound in Go; the model has fuel, exhaustion is
-    `Err.crash` (a fatal, unrecoverable stack overflow in Go).
+  * `Deref` recurses without bound in Go; the model has fuel, exhaustion is `Err.crash` (a fatal,
+    unrecoverable stack overflow in Go).  `getEnum` carries Go's visited set; its fuel is a
+    structural device only (`Err.fuel`).
   * Go panics inside ResolveAST are recovered and returned as errors: they are `Err` values.
 -/
 namespace Sem
@@ -109,7 +110,8 @@ inductive Err
   | derefErr        -- any error returned by Deref
   | includeCycle    -- include recursion does not end (CircleDetect rejects such programs earlier)
   | loopDiverged    -- ResolveTypedefs' loop ran out of the model's fuel (proved impossible)
-  | crash           -- fatal stack overflow: unbounded recursion in getEnum / Deref
+  | fuel            -- getEnum ran out of the model's fuel (the visited set bounds the Go recursion)
+  | crash           -- fatal stack overflow: unbounded recursion in Deref
   deriving DecidableEq, Repr, Inhabited
 
 abbrev Res := Except Err
@@ -295,11 +297,16 @@ def resolveType (env : Env) (slot : Slot) : Nat → TypeExpr → Res (Out (List 
 
 /-! ### getEnum -/
 
-/-- semantic.getEnum(ast = file `j`, name).  Returns the value names of the enum found (or
-`none`) and the include index.  Fuel 0 = Go's stack overflow. -/
-def getEnum (views : Nat → Option FileView) : Nat → Nat → Bytes → Res (Option (List Bytes) × Int)
-  | 0, _, _ => .error .crash
-  | fuel + 1, j, name =>
+/-- semantic.getEnumVisited(ast = file `j`, name, seen).  Returns the value names of the enum found
+(or `none`) and the include index.  `seen` is Go's `map[typedefKey]bool` (AST pointer, typedef name):
+the map is shared by reference, but after the call made for a qualified typedef the function returns
+at once, so passing the grown set downwards is all there is to it.  A typedef met a second time gives
+(nil, -1).  The fuel only makes the definition structural: the visited set bounds the recursion by
+the number of typedefs, `Err.fuel` is not an outcome of the Go code. -/
+def getEnum (views : Nat → Option FileView) : Nat → List (Nat × Bytes) → Nat → Bytes →
+    Res (Option (List Bytes) × Int)
+  | 0, _, _, _ => .error .fuel
+  | fuel + 1, seen, j, name =>
     match views j with
     | none => .error .goPanic
     | some v =>
@@ -314,16 +321,18 @@ def getEnum (views : Nat → Option FileView) : Nat → Nat → Bytes → Res (O
           match v.typedef name with
           | none => .error .goPanic
           | some td =>
-            match td.ref with
-            | some r =>
-              match v.incs[r.index]? with
-              | none => .error .goPanic
-              | some tgt =>
-                match getEnum views fuel tgt r.name with
-                | .error e => .error e
-                | .ok (some vals, _) => .ok (some vals, (r.index : Int))
-                | .ok (none, _) => getEnum views fuel j td.rootName
-            | none => getEnum views fuel j td.rootName
+            if (j, name) ∈ seen then .ok (none, -1)
+            else
+              match td.ref with
+              | some r =>
+                match v.incs[r.index]? with
+                | none => .error .goPanic
+                | some tgt =>
+                  match getEnum views fuel ((j, name) :: seen) tgt r.name with
+                  | .error e => .error e
+                  | .ok (some vals, _) => .ok (some vals, (r.index : Int))
+                  | .ok (none, _) => .ok (none, -1)
+              | none => getEnum views fuel ((j, name) :: seen) j td.rootName
         else .ok (none, -1)
 
 /-! ### ResolveConstValue -/
@@ -352,7 +361,7 @@ def incEnumCands (views : Nat → Option FileView) (fuel : Nat) (a e v : Bytes) 
   | [], _ => .ok []
   | inc :: r, k =>
     if inc.pfx = a then
-      match getEnum views fuel inc.target e with
+      match getEnum views fuel [] inc.target e with
       | .error err => .error err
       | .ok (en, _) =>
         match incEnumCands views fuel a e v r (k + 1) with
@@ -377,7 +386,7 @@ def altCands (ce : CEnv) (ss : List Bytes) : Res (List Cand) :=
     | some c => if c = .constant then .ok [(⟨false, -1, a, []⟩, none)] else .ok []
     | none => .ok []
   | [a, v] =>
-    match getEnum ce.views ce.fuel ce.self a with
+    match getEnum ce.views ce.fuel [] ce.self a with
     | .error e => .error e
     | .ok (en, idx) =>
       let ec := match en with
@@ -539,23 +548,25 @@ def resolveTypedefDef (env : Env) (td : Typedef) : Res (Out DefOut) :=
 def resolveConstantDef (ce : CEnv) (c : Constant) : Res (Out DefOut) :=
   seqOut (resolveSlot ce.env (.const c.name) c.type) (resolveSlotConst ce (.const c.name) c.value)
 
-/-- resolver.ResolveStructField -/
-def resolveField (ce : CEnv) (sname : Bytes) (k : Nat) (fl : Field) : Res (Out DefOut) :=
+/-- One member (struct field, argument, throws field): ResolveType on its type, then
+ResolveConstValue on its default if set (resolver.ResolveStructField; the argument and throws
+loops of ResolveFunction). -/
+def resolveMember (ce : CEnv) (mk : Nat → Slot) (a : Nat) (fl : Field) : Res (Out DefOut) :=
   match fl.dflt with
-  | none => resolveSlot ce.env (.field sname k) fl.type
-  | some d => seqOut (resolveSlot ce.env (.field sname k) fl.type) (resolveSlotConst ce (.field sname k) d)
+  | none => resolveSlot ce.env (mk a) fl.type
+  | some d => seqOut (resolveSlot ce.env (mk a) fl.type) (resolveSlotConst ce (mk a) d)
 
 def resolveStructLikeDef (ce : CEnv) (s : StructLike) : Res (Out DefOut) :=
-  flatOut (mapOutIdx (resolveField ce s.name) 0 s.fields)
+  flatOut (mapOutIdx (resolveMember ce (fun k => .field s.name k)) 0 s.fields)
 
-/-- resolver.ResolveFunction (defaults of arguments and throws are not resolved by the code). -/
-def resolveFunction (env : Env) (svc : Bytes) (k : Nat) (fn : Function) : Res (Out DefOut) :=
+/-- resolver.ResolveFunction -/
+def resolveFunction (ce : CEnv) (svc : Bytes) (k : Nat) (fn : Function) : Res (Out DefOut) :=
   let r : Res (Out DefOut) := match fn.ret with
     | none => .ok ⟨⟨[], [], []⟩, [], []⟩
-    | some t => resolveSlot env (.ret svc k) t
+    | some t => resolveSlot ce.env (.ret svc k) t
   seqOut r
-    (seqOut (flatOut (mapOutIdx (fun a (fl : Field) => resolveSlot env (.arg svc k a) fl.type) 0 fn.args))
-            (flatOut (mapOutIdx (fun a (fl : Field) => resolveSlot env (.throw svc k a) fl.type) 0 fn.throws)))
+    (seqOut (flatOut (mapOutIdx (resolveMember ce (fun a => .arg svc k a)) 0 fn.args))
+            (flatOut (mapOutIdx (resolveMember ce (fun a => .throw svc k a)) 0 fn.throws)))
 
 /-- resolver.ResolveBaseService -/
 def resolveBaseService (env : Env) (ext : Bytes) : Res (Out (Option Ref)) :=
@@ -570,9 +581,9 @@ def resolveBaseService (env : Env) (ext : Bytes) : Res (Out (Option Ref)) :=
     | none => .error .baseSvc
   | _ => .ok ⟨none, [], []⟩
 
-def resolveServiceDef (env : Env) (s : Service) : Res (Out DefOut) :=
-  seqOut (flatOut (mapOutIdx (resolveFunction env s.name) 0 s.functions))
-    (match resolveBaseService env s.extends with
+def resolveServiceDef (ce : CEnv) (s : Service) : Res (Out DefOut) :=
+  seqOut (flatOut (mapOutIdx (resolveFunction ce s.name) 0 s.functions))
+    (match resolveBaseService ce.env s.extends with
      | .error e => .error e
      | .ok bo => .ok ⟨⟨[], [], [(s.name, bo.val)]⟩, bo.work, bo.used⟩)
 
@@ -724,7 +735,8 @@ def resolveAST (views : Nat → Option FileView) (gfuel : Nat) (i : Nat) (f : Fi
               (mkCE views gfuel i (mkEnv n2cL incs) (mkCur (mkEnv n2cL incs) tds.val.types f))) f.structLikes) with
           | .error e => .error e
           | .ok ss =>
-            match flatOut (mapOut (resolveServiceDef (mkEnv n2cL incs)) f.services) with
+            match flatOut (mapOut (resolveServiceDef
+                (mkCE views gfuel i (mkEnv n2cL incs) (mkCur (mkEnv n2cL incs) tds.val.types f))) f.services) with
             | .error e => .error e
             | .ok svs =>
               match resolveTypedefs (mkLE views incs (mkCur (mkEnv n2cL incs) tds.val.types f))
